@@ -188,6 +188,15 @@ def semantic(problems, label, rec, spec, case, fasta_seq):
             problems.append(Problem(label + ":INFO_ACP", "INFO ACP %s, samples sum to %s" % (info["ACP"], t)))
     if "AFP" in info and info["AFP"] != ".":
         t = sample_sum("ACP")
+        if t is None and all(d.get("AFP") not in (None, ".") for d in rec["samples"].values()):
+            # derive the counts from the sample frequencies and ploidies
+            t = None
+            for s_, d in rec["samples"].items():
+                v = [(x or 0.0) * case["ploidy"][s_] for x in V.floats(d["AFP"])]
+                t = v if t is None else ([a + b for a, b in zip(t, v)] if len(v) == len(t) else None)
+                if t is None:
+                    break
+            band = band * max(case["ploidy"].values())
         p = V.floats(info["AFP"])
         tot_ploidy = sum(case["ploidy"].values())
         if t is not None and len(t) == len(p) and not all(x is not None and abs(x - y / tot_ploidy) <= band for x, y in zip(p, t)):
